@@ -22,22 +22,28 @@ PROPS_FILE = "C09.v"
 RUN_MODULE = "RunC09"
 TRANSLATOR_UNITS = []
 SHARD = 125
-RULE = ("dom/names: seeded random designs (module trees of depth<=3, 3-9 signals with names drawn from a pool of 11 so that "
-        "names clash with each other, with clk/rst of implicit domains and with submodule names; 2-5 undeclared clock domains "
-        "used by sync statements, ClockSignal/ResetSignal reads, memory ports and Instance ports; locally declared domains; "
-        "anonymous + named submodules, memories, instances, IO ports; explicit and tuple-named ports); "
-        "add: exhaustive runs of _add_name of length<=4 over {a,a$1,a$2,b} on the sets {} and {a}, + random runs of length<=14 "
-        "over 9 names incl. a$10..a$12; ports: random port lists (named, unnamed, private-named, duplicates); "
-        "plan: random build plans (1-7 files, names from a pool with non-ASCII and directories, str and bytes contents, 4% duplicate "
-        "names); reset: random simulations (clocks with phases, sync logic, memories, testbench + background process) stopped "
-        "mid-delay / at a deadline / after completion, then reset(). non-trivial = the answer is not an error and (dom) >=2 domains "
-        "created, (names) some name got a $n suffix, (add) some name was already in the set, (plan) >=2 files, (reset) time advanced; "
-        "distinct by case hash")
+RULE = ("dom/names: seeded random designs (module trees of depth<=3, 3-13 signals — unsigned, signed, enum-shaped, "
+        "attribute-carrying, widths 1-12 — with names drawn from a pool of 11 (+5 `$`-suffixed ones in half of the designs) so "
+        "that names clash with each other, with clk/rst of implicit domains and with submodule names; 2-5 undeclared clock "
+        "domains used by sync statements, If/Elif/Else, Switch, FSM, ClockSignal/ResetSignal reads, memory ports, Instance "
+        "ports (with parameters and attributes), SyncFIFO / AsyncFIFO / FFSynchronizer cells; DomainRenamer, ResetInserter, "
+        "EnableInserter on subtrees; locally declared domains; anonymous + named submodules, IO ports; explicit and "
+        "tuple-named ports); add: exhaustive runs of _add_name of length<=4 over {a,a$1,a$2,b} on the sets {} and {a}, + random "
+        "runs of length<=14 over 11 names incl. a$10..a$12; ports: random port lists (named, unnamed, private-named, "
+        "duplicates); plan: random build plans (1-8 files, names from a pool with non-ASCII, directories, drive-like and "
+        "dotted names, str and bytes contents; 4% duplicate names, 6% absolute names (ValueError), 6% `..` components "
+        "(extract asserts), 40% extracted into a non-empty directory); reset/fresh: random simulations (clocks with phases, "
+        "the design kinds above, testbench incl. memory writes, optional second testbench and background process) stopped "
+        "mid-delay / at a deadline / after completion, then reset() resp. compared with a new simulator. non-trivial = the "
+        "answer is not an error and (dom) >=2 domains created, (names) some name got a $n suffix, (add) some name was already "
+        "in the set, (plan) >=2 files, (reset/fresh) time advanced; distinct by case hash")
 MODELLED = ("modelled in coq/Model/Repro.v (not verified code): DomainCollector + _propagate_domains_down + "
             "_create_missing_domains (sorted iteration) + the port list of Fragment.prepare, _add_name (retry loop of cb9d97a on fuel "
             "|set|+1, proved sufficient), "
-            "Design._assign_port_names/_assign_names (one fragment; first-use order of signals is an INPUT taken from the real "
-            "Design), BuildPlan.add_file/digest/archive/extract, the fields touched by Simulator.reset(). "
+            "Design._assign_port_names/_assign_names (one fragment; first-use order of signals and the subfragment list are INPUTS "
+            "taken from the real Design), DomainRenamer's effect on domain names, the order in which IO ports are met (named "
+            "submodules first), BuildPlan.add_file/digest/archive/extract with their checks, the fields touched by "
+            "Simulator.reset() and the constructor state, _PyEngineState.commit + _PyTimeline.advance. "
             "VALIDATED ONLY (exploration, not a theorem): byte-identical RTLIL / simulation traces / build plans across separate "
             "interpreters with different PYTHONHASHSEED (k seeds), in-process repeat runs, the value traces of run/reset/rerun, "
             "zipfile/hashlib/os plumbing of archive/digest/extract, everything in rtlil.py and _ir.py netlist building that is "
@@ -50,7 +56,10 @@ ASSUMPTIONS = [
     "the engine's step function reads only the observed fields (hypothesis of C09_reset_rerun_same_trace: everything but "
     "_delta_cycles, used for VCD time stamps only, and the slots' waker lists, whose stale closures switch themselves off); "
     "validated by the run/reset/rerun comparison of value traces and advance() stop times",
-    "file names are relative normalised POSIX paths (BuildPlan.add_file rejects absolute ones; not modelled)",
+    "file names are normalised POSIX paths without a leading backslash (UNC names are not modelled); no file name is a "
+    "directory of another one",
+    "engine slots are compared in a canonical order: their numbering follows set(fragment.statements) in "
+    "_pyrtl._FragmentCompiler, i.e. the hash seed (internal, not observable by testbenches)",
 ]
 
 QUICK_SEEDS = 6
@@ -100,14 +109,21 @@ TYPES = ["Alu", "Core", "a", "U"]
 SUBNAMES = ["a", "b", "sub", "m0", "Alu$0", "U$1", "mem", "clk"]
 
 
-def gen_design(r, sim=False, plain_names=True):
-    """JSON description of a design.  sim=True: no instances / IO ports (simulable)."""
-    nsig = r.randint(3, 9)
-    names = NAMES if plain_names else NAMES + ["a$1", "a$2", "b$3"]
+def gen_design(r, sim=False, plain_names=True, rich=True):
+    """JSON description of a design.  sim=True: no instances / IO ports / local domains (simulable).
+    rich=True adds If/Switch/FSM, lib cells (SyncFIFO, AsyncFIFO, FFSynchronizer), transformers
+    (DomainRenamer, ResetInserter, EnableInserter), signed / enum-shaped / attribute-carrying / wide signals,
+    Instance parameters and attributes."""
+    nsig = r.randint(3, 9) + (r.randint(0, 4) if rich else 0)
+    names = NAMES if plain_names else NAMES + ["a$1", "a$2", "b$3", "clk$1", "x$10"]
     sigs = []
     for _ in range(nsig):
-        w = r.randint(1, 4)
-        sigs.append([r.choice(names), w, r.randrange(1 << w)])
+        kind = r.choice([0, 0, 0, 1, 2, 3]) if rich else 0      # 0 unsigned, 1 signed, 2 enum-shaped, 3 attrs
+        w = r.randint(1, 4) if (not rich or r.random() < 0.8) else r.randint(5, 12)
+        if kind == 2:
+            w = r.randint(1, 3)
+        init = r.randrange(-(1 << (w - 1)), 1 << (w - 1)) if kind == 1 else r.randrange(1 << w)
+        sigs.append([r.choice(names), w, init, kind])
     doms = r.sample(DOMS, r.randint(2, 5))
     driven = set()
     budget = [r.randint(2, 7)]
@@ -115,52 +131,102 @@ def gen_design(r, sim=False, plain_names=True):
     def free():
         return [i for i in range(nsig) if i not in driven]
 
+    def take():
+        f = free()
+        if not f:
+            return None
+        dst = r.choice(f)
+        driven.add(dst)
+        return dst
+
     def src_below(dst):
         return r.randrange(dst) if dst > 0 else -1
 
-    def node(depth):
-        n = {"n": None, "t": r.choice(TYPES), "doms": [], "st": [], "clk": [], "mem": None, "inst": None, "io": None, "subs": []}
-        if not sim and r.random() < 0.15:
+    def node(depth, no_doms=False):
+        n = {"n": None, "t": r.choice(TYPES), "doms": [], "st": [], "clk": [], "mem": None, "inst": None, "io": None,
+             "subs": [], "ctl": [], "lib": [], "xf": None}
+        if rich and depth > 0 and r.random() < 0.3:
+            k = r.random()
+            if k < 0.4:
+                src = r.choice(doms + ["sync"])
+                dstd = r.choice([d for d in doms if d != src] or doms)
+                if src != dstd:
+                    n["xf"] = ["rename", [[src, dstd]]]
+                    no_doms = True          # keep declared domains out of renamed subtrees (two could collapse)
+            elif k < 0.7:
+                n["xf"] = ["reset", r.choice(doms), r.randrange(nsig)]
+            else:
+                n["xf"] = ["enable", r.choice(doms), r.randrange(nsig)]
+        if not sim and not no_doms and r.random() < 0.15:
             n["doms"] = [r.choice(doms)]
         for _ in range(r.randint(0, 3)):
-            f = free()
-            if not f:
+            dst = take()
+            if dst is None:
                 break
-            dst = r.choice(f)
-            driven.add(dst)
             if r.random() < 0.3:
                 n["st"].append(["comb", dst, src_below(dst), src_below(dst), r.randrange(3)])
             else:
                 n["st"].append([r.choice(doms), dst, r.randrange(nsig), r.randrange(nsig), r.randrange(3)])
-        if r.random() < 0.35 and free():
-            dst = r.choice(free())
-            driven.add(dst)
-            n["clk"].append([dst, r.choice(doms), r.randrange(2)])
-        if r.random() < 0.3 and free():
-            dst = r.choice(free())
-            driven.add(dst)
-            depth_m = r.randint(2, 4)
-            w = r.randint(1, 4)
-            n["mem"] = {"n": r.choice([None, "mem", "a"]), "depth": depth_m, "w": w,
-                        "init": [r.randrange(1 << w) for _ in range(r.randint(0, depth_m))],
-                        "rd": r.choice(doms + ["comb"]), "wd": r.choice(doms + [None]),
-                        "ra": src_below(dst), "rdat": dst,
-                        "wa": r.randrange(nsig), "wdat": r.randrange(nsig), "wen": r.randrange(nsig)}
-        if not sim and r.random() < 0.3 and free():
-            dst = r.choice(free())
-            driven.add(dst)
-            n["inst"] = {"n": r.choice([None, "inst", "b"]), "type": r.choice(["ext", "a", "pll"]),
-                         "i": r.randrange(nsig), "o": dst, "clk": r.choice(doms + [None])}
-        if not sim and r.random() < 0.2 and free():
-            dst = r.choice(free())
-            driven.add(dst)
-            n["io"] = {"name": r.choice(NAMES + ["pad"]), "sig": dst}
+        if rich:
+            for _ in range(r.randint(0, 2)):
+                dst = take()
+                if dst is None:
+                    break
+                k = r.random()
+                comb = r.random() < 0.3
+                dom = "comb" if comb else r.choice(doms)
+                pick = (lambda: src_below(dst)) if comb else (lambda: r.randrange(nsig))
+                if k < 0.4:
+                    n["ctl"].append(["if", dom, dst, pick(), pick(), pick(), r.random() < 0.5])
+                elif k < 0.7:
+                    n["ctl"].append(["sw", dom, dst, pick(), sorted(r.sample(range(8), r.randint(1, 3)))])
+                else:
+                    n["ctl"].append(["fsm", r.choice(doms), dst, r.randint(2, 4), r.choice([None, "fsm", "a"])])
+            if r.random() < 0.3:
+                dst = take()
+                if dst is not None:
+                    k = r.random()
+                    w = r.randint(1, 4)
+                    if k < 0.4:
+                        n["lib"].append(["sfifo", r.choice(doms), w, r.randint(1, 4), r.randrange(nsig), r.randrange(nsig), dst])
+                    elif k < 0.6 and len(doms) >= 2:
+                        rd, wd = r.sample(doms, 2)
+                        n["lib"].append(["afifo", rd, wd, w, r.choice([2, 4]), r.randrange(nsig), r.randrange(nsig), dst])
+                    else:
+                        n["lib"].append(["ffs", r.choice(doms), r.randrange(nsig), dst, r.randint(2, 3)])
+        if r.random() < 0.35:
+            dst = take()
+            if dst is not None:
+                n["clk"].append([dst, r.choice(doms), r.randrange(2)])
+        if r.random() < 0.3:
+            dst = take()
+            if dst is not None:
+                depth_m = r.randint(2, 4)
+                w = r.randint(1, 4)
+                n["mem"] = {"n": r.choice([None, "mem", "a"]), "depth": depth_m, "w": w,
+                            "init": [r.randrange(1 << w) for _ in range(r.randint(0, depth_m))],
+                            "rd": r.choice(doms + ["comb"]), "wd": r.choice(doms + [None]),
+                            "ra": src_below(dst), "rdat": dst,
+                            "wa": r.randrange(nsig), "wdat": r.randrange(nsig), "wen": r.randrange(nsig)}
+        if not sim and r.random() < 0.3:
+            dst = take()
+            if dst is not None:
+                n["inst"] = {"n": r.choice([None, "inst", "b"]), "type": r.choice(["ext", "a", "pll"]),
+                             "i": r.randrange(nsig), "o": dst, "clk": r.choice(doms + [None])}
+                if rich:
+                    pool = [["WIDTH", 4], ["INIT", "abc"], ["MODE", "fast"], ["DIV", -3], ["A", 0], ["Z", 1 << 40]]
+                    n["inst"]["params"] = r.sample(pool, r.randint(0, 4))
+                    n["inst"]["attrs"] = r.sample([["keep", "true"], ["LOC", "X1Y2"], ["a", 1]], r.randint(0, 2))
+        if not sim and r.random() < 0.2:
+            dst = take()
+            if dst is not None:
+                n["io"] = {"name": r.choice(names + ["pad"]), "sig": dst}
         if depth < 3:
             for _ in range(r.randint(0, 3)):
                 if budget[0] <= 0:
                     break
                 budget[0] -= 1
-                n["subs"].append(node(depth + 1))
+                n["subs"].append(node(depth + 1, no_doms))
             used = {(n["mem"] or {}).get("n"), (n["inst"] or {}).get("n")}
             for s in n["subs"]:
                 if r.random() < 0.5:
@@ -172,11 +238,9 @@ def gen_design(r, sim=False, plain_names=True):
 
     top = node(0)
     # make sure at least two undeclared domains are used somewhere at the top
-    f = free()
     for d in doms[:2]:
-        if f:
-            dst = f.pop()
-            driven.add(dst)
+        dst = take()
+        if dst is not None:
             top["st"].append([d, dst, r.randrange(nsig), r.randrange(nsig), r.randrange(3)])
     ports = []
     for i in r.sample(range(nsig), r.randint(1, nsig)):
@@ -191,16 +255,53 @@ def gen_design(r, sim=False, plain_names=True):
     return {"sigs": sigs, "doms": doms, "top": top, "ports": ports, "free": sorted(free())}
 
 
+_ENUMS = {}
+
+
+def enum_cls(w):
+    """amaranth.lib.enum.Enum of shape unsigned(w) with a member for every value"""
+    if w not in _ENUMS:
+        from amaranth.lib import enum as aenum
+        ns = {"aenum": aenum}
+        body = "".join(f"    M{i} = {i}\n" for i in range(1 << w))
+        exec(f"class E{w}(aenum.Enum, shape={w}):\n{body}", ns)
+        _ENUMS[w] = ns[f"E{w}"]
+    return _ENUMS[w]
+
+
 def build_design(D):
-    """Fresh real objects for a design description.  Returns (top elaboratable, signals, ports argument, memories)."""
+    """Fresh real objects for a design description.  Returns (top elaboratable, signals (as plain Values),
+    ports argument, memories)."""
     from amaranth.hdl import (Module, Signal, Const, Mux, ClockDomain, ClockSignal, ResetSignal, Elaboratable,
-                              Instance, IOPort, IOBufferInstance)
+                              Instance, IOPort, IOBufferInstance, Value, signed, DomainRenamer, ResetInserter,
+                              EnableInserter)
     from amaranth.lib.memory import Memory
-    sigs = [Signal(w, name=nm, init=init) for nm, w, init in D["sigs"]]
+    from amaranth.lib.fifo import SyncFIFO, AsyncFIFO
+    from amaranth.lib.cdc import FFSynchronizer
+    sigs = []
+    for ent in D["sigs"]:
+        nm, w, init = ent[:3]
+        kind = ent[3] if len(ent) > 3 else 0
+        if kind == 1:
+            s = Signal(signed(w), name=nm, init=init)
+        elif kind == 2:
+            E = enum_cls(w)
+            s = Value.cast(Signal(E, name=nm, init=E(init)))
+        elif kind == 3:
+            s = Signal(w, name=nm, init=init, attrs={"keep": "true", "mark": w})
+        else:
+            s = Signal(w, name=nm, init=init)
+        sigs.append(s)
     mems = []
 
     def val(i):
         return Const(1, 1) if i < 0 else sigs[i]
+
+    def add_sub(m, name, obj):
+        if name is None:
+            m.submodules += obj
+        else:
+            m.submodules[name] = obj
 
     def mk(n):
         m = Module()
@@ -210,16 +311,54 @@ def build_design(D):
             a, b = val(s1), val(s2)
             e = [a + b, a ^ b, Mux(a[0], b, ~b)][op]
             m.d[dom] += sigs[dst].eq(e)
+        for c in n.get("ctl", []):
+            if c[0] == "if":
+                _, dom, dst, cs, s1, s2, has_elif = c
+                with m.If(val(cs)[0]):
+                    m.d[dom] += sigs[dst].eq(val(s1))
+                if has_elif:
+                    with m.Elif(val(s1)[0]):
+                        m.d[dom] += sigs[dst].eq(val(s2))
+                with m.Else():
+                    m.d[dom] += sigs[dst].eq(val(s1) ^ val(s2))
+            elif c[0] == "sw":
+                _, dom, dst, sel, ks = c
+                v = val(sel).as_unsigned()
+                with m.Switch(v):
+                    for k in ks:
+                        if k < (1 << len(v)):
+                            with m.Case(k):
+                                m.d[dom] += sigs[dst].eq(k + 1)
+                    with m.Default():
+                        m.d[dom] += sigs[dst].eq(0)
+            else:
+                _, dom, dst, nst, nm = c
+                with m.FSM(domain=dom, **({} if nm is None else {"name": nm})):
+                    for k in range(nst):
+                        with m.State(f"S{k}"):
+                            m.d.comb += sigs[dst].eq(k + 1)
+                            m.next = f"S{(k + 1) % nst}"
+        for c in n.get("lib", []):
+            if c[0] == "sfifo":
+                _, dom, w, depth, wd, wen, dst = c
+                f = SyncFIFO(width=w, depth=depth)
+                m.submodules += DomainRenamer(dom)(f)
+                m.d.comb += [f.w_data.eq(val(wd)), f.w_en.eq(val(wen)[0]), f.r_en.eq(1), sigs[dst].eq(f.r_data)]
+            elif c[0] == "afifo":
+                _, rd, wdm, w, depth, wd, wen, dst = c
+                f = AsyncFIFO(width=w, depth=depth, r_domain=rd, w_domain=wdm)
+                m.submodules.afifo = f
+                m.d.comb += [f.w_data.eq(val(wd)), f.w_en.eq(val(wen)[0]), f.r_en.eq(1), sigs[dst].eq(f.r_data)]
+            else:
+                _, dom, src, dst, stages = c
+                m.submodules += FFSynchronizer(val(src), sigs[dst], o_domain=dom, stages=stages)
         for dst, dom, kind in n["clk"]:
             m.d.comb += sigs[dst].eq(ClockSignal(dom) if kind == 0 else ResetSignal(dom))
         if n["mem"]:
             mm = n["mem"]
             mem = Memory(shape=mm["w"], depth=mm["depth"], init=mm["init"])
             mems.append(mem)
-            if mm["n"] is None:
-                m.submodules += mem
-            else:
-                m.submodules[mm["n"]] = mem
+            add_sub(m, mm["n"], mem)
             rp = mem.read_port(domain=mm["rd"])
             m.d.comb += rp.addr.eq(val(mm["ra"]))
             m.d.comb += sigs[mm["rdat"]].eq(rp.data)
@@ -228,26 +367,31 @@ def build_design(D):
                 m.d.comb += [wp.addr.eq(sigs[mm["wa"]]), wp.data.eq(sigs[mm["wdat"]]), wp.en.eq(sigs[mm["wen"]][0])]
         if n["inst"]:
             it = n["inst"]
-            kw = {"i_d": sigs[it["i"]], "o_q": sigs[it["o"]]}
+            kw = {}
+            for k, v in it.get("params", []):
+                kw["p_" + k] = v
+            for k, v in it.get("attrs", []):
+                kw["a_" + k] = v
+            kw.update({"i_d": sigs[it["i"]], "o_q": sigs[it["o"]]})
             if it["clk"] is not None:
                 kw["i_clk"] = ClockSignal(it["clk"])
-            inst = Instance(it["type"], **kw)
-            if it["n"] is None:
-                m.submodules += inst
-            else:
-                m.submodules[it["n"]] = inst
+            add_sub(m, it["n"], Instance(it["type"], **kw))
         if n["io"]:
             s = sigs[n["io"]["sig"]]
             m.submodules += IOBufferInstance(IOPort(len(s), name=n["io"]["name"]), i=s)
         for sub in n["subs"]:
-            e = mk(sub)
-            if sub["n"] is None:
-                m.submodules += e
-            else:
-                m.submodules[sub["n"]] = e
+            add_sub(m, sub["n"], mk(sub))
         cls = type(n["t"], (Elaboratable,), {"elaborate": lambda self, platform: self._m})
         obj = cls()
         obj._m = m
+        xf = n.get("xf")
+        if xf:
+            if xf[0] == "rename":
+                obj = DomainRenamer({a: b for a, b in xf[1]})(obj)
+            elif xf[0] == "reset":
+                obj = ResetInserter({xf[1]: val(xf[2])[0]})(obj)
+            else:
+                obj = EnableInserter({xf[1]: val(xf[2])[0]})(obj)
         return obj
 
     top = mk(D["top"])
@@ -260,9 +404,17 @@ def frag_term(n):
     used = []
     for dom, *_ in n["st"]:
         used.append(dom)
+    for c in n.get("ctl", []):
+        used.append(c[1])
+        if c[0] == "fsm":
+            used.append("comb")
     for dst, dom, kind in n["clk"]:
         used += ["comb", dom]
     subs = []
+    for c in n.get("lib", []):
+        used.append("comb")
+        lib_doms = {"sfifo": [c[1]], "afifo": [c[1], c[2]], "ffs": [c[1]]}[c[0]]
+        subs.append(f"(Frag [] [] {names_lit(lib_doms)} [])")
     if n["mem"]:
         mm = n["mem"]
         used.append("comb")
@@ -274,28 +426,27 @@ def frag_term(n):
     if n["io"]:
         subs.append("(Frag [] [] [] [])")
     subs += [frag_term(s) for s in n["subs"]]
-    return f"(Frag [] {names_lit(n['doms'])} {names_lit(used)} [{'; '.join(subs)}])"
+    t = f"(Frag [] {names_lit(n['doms'])} {names_lit(used)} [{'; '.join(subs)}])"
+    xf = n.get("xf")
+    if xf and xf[0] == "rename":
+        t = "(rename_frag [" + "; ".join(f"({qn(a)}, {qn(b)})" for a, b in xf[1]) + f"] {t})"
+    return t
 
 
-def io_order(n):
-    """names of the IO ports in the order Design._collect_used_signals meets them: Module puts the named
-    submodules first (insertion order), then the anonymous ones"""
+def kid_term(n, named=False):
+    """Gallina `kid`: the submodule tree with its IO buffers (structure only; the ordering is the model's)"""
     kids = []
+    for c in n.get("lib", []):
+        kids.append(f"KSub {b(c[0] == 'afifo')} []")
     if n["mem"]:
-        kids.append((n["mem"]["n"], None))
+        kids.append(f"KSub {b(n['mem']['n'] is not None)} []")
     if n["inst"]:
-        kids.append((n["inst"]["n"], None))
+        kids.append(f"KSub {b(n['inst']['n'] is not None)} []")
     if n["io"]:
-        kids.append((None, n["io"]["name"]))
+        kids.append(f"KIo {qn(n['io']['name'])}")
     for s in n["subs"]:
-        kids.append((s["n"], s))
-    out = []
-    for nm, k in [x for x in kids if x[0] is not None] + [x for x in kids if x[0] is None]:
-        if isinstance(k, str):
-            out.append(k)
-        elif isinstance(k, dict):
-            out += io_order(k)
-    return out
+        kids.append(kid_term(s, s["n"] is not None))
+    return f"(KSub {b(named)} [" + "; ".join(kids) + "])"
 
 
 def names_lit(l):
@@ -306,7 +457,7 @@ def rtlil_ports(text):
     """(direction, name) of the ports of module \\top in port-index order"""
     i = text.index("module \\top")
     body = text[i:text.index("\nend\n", i)]
-    found = re.findall(r"^\s*wire (?:width \d+ )?(input|output|inout) (\d+)\s+\\(\S+)\s*$", body, flags=re.M)
+    found = re.findall(r"^\s*wire (?:width \d+ )?(input|output|inout) (\d+)(?:\s+signed)?\s+\\(\S+)\s*$", body, flags=re.M)
     return [(d, nm) for d, _, nm in sorted(found, key=lambda t: int(t[1]))]
 
 
@@ -343,6 +494,21 @@ def elaborate_obs(D):
 
 
 ERRS = {"AssertionError": 1, "TypeError": 2}
+
+
+def unexpected(e):
+    """an exception class the model never predicts: [-9, checksum of the class name]"""
+    return [-9, sum(ord(ch) for ch in type(e).__name__) % 100000]
+
+
+def user_inits_ok(D, sim):
+    """the `init` the engine holds for every user signal that has a slot is the one of the design description
+    (the snapshot takes inits from the implementation)"""
+    st = sim._engine._state
+    for ent, sig in zip(D["sigs"], sim._c09_sigs):
+        if sig in st.signals and int(st.slots[st.signals[sig]].signal.init) != ent[2]:
+            return False
+    return True
 
 
 def err_code(e):
@@ -392,15 +558,30 @@ FILE_POOL = ["top.il", "top.ys", "build_top.sh", "a", "b", "ab", "a/b", "a/c.txt
 SCRIPTS = ["build_top", "b", "\u00e9", ""]
 
 
+BAD_NAMES = ["/abs", "C:/x", "c:\\y", "1:/x", "\u00e9:/x", "//h/s/x"]          # add_file: ValueError
+ODD_NAMES = ["C:x", ":/x", "ab:/x", "a/..b", "...", "C:"]                       # legal relative names
+DOTDOT_NAMES = ["../up.txt", "a/../b", "..", "a/../../b"]                        # extract(): AssertionError
+
+
+def _no_conflict(nm, names):
+    return not any(o == nm or o.startswith(nm + "/") or nm.startswith(o + "/") for o in names)
+
+
 def gen_plan(r):
     n = r.randint(1, 7)
     names = []
-    for nm in r.sample(FILE_POOL, n):        # a file name must not be a directory of another one
-        if not any(o.startswith(nm + "/") or nm.startswith(o + "/") for o in names):
+    pool = FILE_POOL + ODD_NAMES
+    for nm in r.sample(pool, n):        # a file name must not be a directory of another one
+        if _no_conflict(nm, names):
             names.append(nm)
     n = len(names)
-    if r.random() < 0.04 and n >= 2:
+    k = r.random()
+    if k < 0.04 and n >= 2:
         names[-1] = names[0]
+    elif k < 0.10:
+        names.insert(r.randrange(n + 1), r.choice(BAD_NAMES))
+    elif k < 0.16:
+        names.insert(r.randrange(n + 1), r.choice(DOTDOT_NAMES))
     adds = []
     for nm in names:
         ln = r.randint(0, 6)
@@ -408,7 +589,13 @@ def gen_plan(r):
             adds.append([nm, "s", "".join(r.choice("ab\n \u00e9\u4e2d\U0001f600{}") for _ in range(ln))])
         else:
             adds.append([nm, "b", [r.randrange(256) for _ in range(ln)]])
-    return {"k": "plan", "adds": adds, "script": r.choice(SCRIPTS)}
+    pre = []
+    if r.random() < 0.4:                 # the build directory is not empty: unrelated files stay, same names are replaced
+        for nm in r.sample(["keep.txt", "old/top.il", "zz"] + names[:2], r.randint(1, 3)):
+            if nm not in BAD_NAMES + DOTDOT_NAMES and all(_no_conflict(nm, [o]) or o == nm for o in names) \
+                    and _no_conflict(nm, [p_[0] for p_ in pre]):
+                pre.append([nm, [r.randrange(256) for _ in range(r.randint(0, 4))]])
+    return {"k": "plan", "adds": adds, "script": r.choice(SCRIPTS), "pre": pre}
 
 
 class _Recorder:
@@ -428,8 +615,8 @@ def run_plan(c):
     try:
         for nm, kind, content in c["adds"]:
             plan.add_file(nm, content if kind == "s" else bytes(content))
-    except AssertionError:
-        return [-1, 1]
+    except (AssertionError, ValueError) as e:
+        return [-1, {"AssertionError": 1, "ValueError": 3}[type(e).__name__]]
     rec = _Recorder()
     real_hashlib = brun.hashlib
 
@@ -445,14 +632,16 @@ def run_plan(c):
     import zipfile
     buf = io.BytesIO()
     plan.archive(buf)
-    members = []
+    out = [1] + enc_name(rec.data)
     with zipfile.ZipFile(io.BytesIO(buf.getvalue())) as zf:
-        for info in zf.infolist():
-            members.append((info.filename, zf.read(info)))
-    listing = extract_listing(plan)
-    out = [1] + enc_name(rec.data) + [len(members)]
-    for nm, b in members:
-        out += enc_name(nm) + enc_name(b)
+        infos = zf.infolist()
+        out += [len(infos)]
+        for info in infos:
+            out += enc_name(info.filename) + enc_name(zf.read(info)) + list(info.date_time) + [info.compress_type]
+    try:
+        listing = extract_listing(plan, c.get("pre", []))
+    except AssertionError:
+        return out + [-1, 1]
     out += [len(listing)]
     for nm, b in listing:
         out += enc_name(nm) + enc_name(b)
@@ -467,16 +656,25 @@ def scratch_dir():
     return d
 
 
-def extract_listing(plan):
-    """plan.extract into a scratch directory: sorted [(relative posix path, bytes)], directory removed afterwards"""
+def extract_listing(plan, pre=()):
+    """plan.extract into a scratch directory (two levels below the mkdtemp directory, so that a `..` component
+    could not leave it even if extract() did not refuse it) that already holds the files `pre`:
+    sorted [(relative posix path, bytes)]; everything is removed afterwards"""
     d = scratch_dir()
     try:
-        plan.extract(d)
+        root = os.path.join(d, "l1", "l2")
+        os.makedirs(root)
+        for nm, content in pre:
+            fp = os.path.join(root, *nm.split("/"))
+            os.makedirs(os.path.dirname(fp), exist_ok=True)
+            with open(fp, "wb") as f:
+                f.write(bytes(content))
+        plan.extract(root)
         out = []
-        for dp, _, fs in os.walk(d):
+        for dp, _, fs in os.walk(root):
             for f in fs:
                 p = os.path.join(dp, f)
-                rel = os.path.relpath(p, d).replace(os.sep, "/")
+                rel = os.path.relpath(p, root).replace(os.sep, "/")
                 out.append((rel, open(p, "rb").read()))
         return sorted(out)
     finally:
@@ -488,16 +686,21 @@ def plan_term(c):
     for nm, kind, content in c["adds"]:
         cont = f"CStr {qn(content)}" if kind == "s" else f"CBytes {zl(content)}"
         adds.append(f"({qn(nm)}, {cont})")
-    return f"k_plan [{'; '.join(adds)}] {qn(c['script'])}"
+    pre = "[" + "; ".join(f"({qn(nm)}, {zl(content)})" for nm, content in c.get("pre", [])) + "]"
+    return f"k_plan {pre} [{'; '.join(adds)}] {qn(c['script'])}"
 
 
 # ------------------------------------------------------------------ simulations (reset)
 def used_domains(D):
-    out = []
-
+    """clock domains visible at the top of a simulable design (no locally declared domains there)"""
     def walk(n):
+        out = []
         for dom, *_ in n["st"]:
             out.append(dom)
+        for c in n.get("ctl", []):
+            out.append(c[1])
+        for c in n.get("lib", []):
+            out += {"sfifo": [c[1]], "afifo": [c[1], c[2]], "ffs": [c[1]]}[c[0]]
         for _, dom, _ in n["clk"]:
             out.append(dom)
         if n["mem"]:
@@ -505,20 +708,38 @@ def used_domains(D):
         if n["inst"]:
             out.append(n["inst"]["clk"])
         for s in n["subs"]:
-            walk(s)
-    walk(D["top"])
-    return sorted({d for d in out if d not in (None, "comb")})
+            out += walk(s)
+        xf = n.get("xf")
+        if xf and xf[0] == "rename":
+            mp = dict(map(tuple, xf[1]))
+            out = [mp.get(d, d) for d in out]
+        return out
+    return sorted({d for d in walk(D["top"]) if d not in (None, "comb")})
 
 
-def gen_sim_design(r):
+def gen_sim_design(r, plain_names=True):
     while True:
-        D = gen_design(r, sim=True)
+        D = gen_design(r, sim=True, plain_names=plain_names)
         if used_domains(D):
             return D
 
 
+def design_mems(D):
+    """memory descriptors in the order build_design creates them"""
+    out = []
+
+    def walk(n):
+        if n["mem"]:
+            out.append(n["mem"])
+        for s_ in n["subs"]:
+            walk(s_)
+    walk(D["top"])
+    return out
+
+
 def gen_stim(r, D):
     doms = used_domains(D)
+    dm = design_mems(D)
     clocks = [[d, r.choice([2, 3, 4, 10]), r.choice([None, None, 0, 1, 3])] for d in doms]
     steps = []
     for _ in range(r.randint(2, 8)):
@@ -527,12 +748,16 @@ def gen_stim(r, D):
             steps.append(["delay", r.choice([1, 2, 3, 5, 7])])
         elif k < 0.6:
             steps.append(["tick", r.choice(doms)])
-        elif k < 0.85 and D["free"]:
+        elif k < 0.8 and D["free"]:
             i = r.choice(D["free"])
             steps.append(["set", i, r.randrange(1 << D["sigs"][i][1])])
+        elif k < 0.9 and dm:
+            mi = r.randrange(len(dm))
+            steps.append(["setmem", mi, r.randrange(dm[mi]["depth"]), r.randrange(1 << dm[mi]["w"])])
         else:
             steps.append(["get"])
     steps.append(["get"])
+    tb2 = [r.choice([1, 2, 4, 6]) for _ in range(r.randint(1, 4))] if r.random() < 0.4 else None
     bg = None
     if r.random() < 0.6 and D["free"]:
         bg = [r.choice(D["free"]), r.choice([1, 3, 4]), r.random() < 0.5]
@@ -548,7 +773,7 @@ def gen_stim(r, D):
         stop = bg[1] * r.randint(1, 6)
     else:
         stop = r.choice([1, 2, 3, max(1, total), max(1, total // 2), total + 20, 50])
-    return {"clocks": clocks, "steps": steps, "bg": bg, "stop": stop}
+    return {"clocks": clocks, "steps": steps, "bg": bg, "stop": stop, "tb2": tb2}
 
 
 def make_sim(D, S, trace):
@@ -563,6 +788,12 @@ def make_sim(D, S, trace):
     bg = S["bg"]
     bg_sig = bg[0] if bg else None
 
+    def sample(ctx, tag):
+        row = [tag] + [ctx.get(s) for s in sigs]
+        for mem in mems:
+            row += [ctx.get(mem.data[i]) for i in range(mem.depth)]
+        trace.append(row)
+
     async def tb(ctx):
         for st in S["steps"]:
             if st[0] == "delay":
@@ -572,12 +803,17 @@ def make_sim(D, S, trace):
             elif st[0] == "set":
                 if st[1] != bg_sig:
                     ctx.set(sigs[st[1]], st[2])
+            elif st[0] == "setmem":
+                ctx.set(mems[st[1]].data[st[2]], st[3])
             else:
-                row = [ctx.get(s) for s in sigs]
-                for mem in mems:
-                    row += [ctx.get(mem.data[i]) for i in range(mem.depth)]
-                trace.append(row)
+                sample(ctx, 1)
     sim.add_testbench(tb)
+    if S.get("tb2"):
+        async def tb2(ctx):             # a second testbench, added after the first: runs after it at equal times
+            for d in S["tb2"]:
+                await ctx.delay(Period(ns=d))
+                sample(ctx, 2)
+        sim.add_testbench(tb2)
     if bg:
         async def proc(ctx):
             v = 0
@@ -589,6 +825,7 @@ def make_sim(D, S, trace):
             sim.add_process(proc)
         else:
             sim.add_testbench(proc, background=True)
+    sim._c09_sigs = sigs
     return sim, sigs, mems
 
 
@@ -616,19 +853,35 @@ def _enc_proc(p):
             -1 if p.waits_on is None else 1, pc]
 
 
+def touch_all(sim):
+    """allocate the slot of every user signal (what the first ctx.get / ctx.set of a testbench does), so that a
+    simulator that has run and a new one hold the same set of slots"""
+    for sig in sim._c09_sigs:
+        sim._engine._state.get_signal(sig)
+
+
 def snapshot(sim):
+    """Engine state.  The slots are listed in a canonical order — kind, signal name, init, number of wakers (all
+    untouched by reset()), then the dynamic fields — because their numbering follows the iteration of
+    `set(fragment.statements)` in _pyrtl._FragmentCompiler, i.e. the string-hash seed; `pending` holds positions
+    in that order."""
     eng = sim._engine
     st = eng._state
     slots = []
     for s in st.slots:
+        pend = int(any(s is p for p in st.pending))
         if type(s).__name__ == "_PySignalState":
-            slots.append([0, int(s.signal.init), int(s.curr), int(s.next), len(s.wakers)])
+            key = (0, s.signal.name, int(s.signal.init), len(s.wakers), int(s.curr), int(s.next), pend)
+            slots.append((key, [0, int(s.signal.init), int(s.curr), int(s.next), len(s.wakers)], pend))
         else:
             init = [int(v) for v in s.memory._init._raw]
             data = [int(v) for v in s.data]
             wq = sorted((int(a), int(v)) for a, v in s.write_queue.items())
-            slots.append([1, init, data, [list(t) for t in wq], len(s.wakers)])
-    pending = sorted(i for i, s in enumerate(st.slots) if any(s is p for p in st.pending))
+            key = (1, "", init, len(s.wakers), data, wq, pend)
+            slots.append((key, [1, init, data, [list(t) for t in wq], len(s.wakers)], pend))
+    slots.sort(key=lambda t: t[0])
+    pending = [i for i, t in enumerate(slots) if t[2]]
+    slots = [t[1] for t in slots]
     procs = sorted((_enc_proc(p) for p in eng._processes), key=lambda e: (_static_of(e), e))
     tbs = [_enc_proc(p) for p in eng._testbenches]
     return {"slots": slots, "pending": pending, "now": int(st.timeline.now),
@@ -645,13 +898,16 @@ def _static_of(e):
     return (2, e[1])
 
 
-def enc_snapshot(s):
+def enc_snapshot(s, wakers=True):
+    """wakers=False: the per-slot waker counts are left out (they are not part of Repro.observe: a new simulator
+    holds the wakers of the compiled processes, a reset one those plus switched-off stale ones)"""
     out = [len(s["slots"])]
     for sl in s["slots"]:
         if sl[0] == 0:
-            out += sl
+            out += sl[:4] + ([sl[4]] if wakers else [])
         else:
-            out += [1] + [len(sl[1])] + sl[1] + [len(sl[2])] + sl[2] + [len(sl[3])] + [x for t in sl[3] for x in t] + [sl[4]]
+            out += [1] + [len(sl[1])] + sl[1] + [len(sl[2])] + sl[2] + [len(sl[3])] + [x for t in sl[3] for x in t] \
+                + ([sl[4]] if wakers else [])
     out += [len(s["pending"])] + s["pending"] + [s["now"]] + [len(s["wakers"])] + s["wakers"]
     out += [len(s["procs"])] + [x for p in s["procs"] for x in p]
     out += [len(s["tbs"])] + [x for p in s["tbs"] for x in p]
@@ -702,6 +958,10 @@ def classify(c):
         return "add:" + c.get("g", "rand")
     if k == "plan":
         return f"plan:{min(len(c['adds']), 4)}+files" if len(c["adds"]) >= 4 else f"plan:{len(c['adds'])}files"
+    if k == "fresh":
+        return "fresh"
+    if k == "reset" and c["pre"] is None:
+        return "reset:generation-error"
     if k == "reset":
         return "reset:active" if c["pre"]["active"] else ("reset:done" if not any(p[3] for p in c["pre"]["tbs"]) else "reset:mid")
     return k
@@ -713,6 +973,8 @@ def nontrivial(c, obs):
     k = c["k"]
     if k == "dom":
         return obs[1] >= 2
+    if k == "names" and c["frs"] is None:
+        return False
     if k == "names":
         return any("$" in nm for fr in c["frs"] for m in fr["out"][:2] for _, nm in m) or \
             any("$" in nm for fr in c["frs"] for nm in fr["out"][2])
@@ -727,7 +989,7 @@ def nontrivial(c, obs):
         return len(c["ports"]) >= 2
     if k == "plan":
         return len(c["adds"]) >= 2
-    if k == "reset":
+    if k in ("reset", "fresh"):
         return c["pre"]["now"] > 0
     return True
 
@@ -764,27 +1026,31 @@ def gen_cases(tier, seed):
                 p[0] = None
             seen.add(p[0])
         cases.append({"k": "ports", "ports": ports})
-    # --- designs: created domains / ports, naming
+    # --- designs: created domains / ports, naming ($-suffixed user names in half of them)
     for i in range(220 if not thorough else 2500):
-        D = gen_design(r, sim=False, plain_names=True)
+        D = gen_design(r, sim=False, plain_names=(i % 4 < 2))
         cases.append({"k": "dom", "design": D})
         if i % 2 == 0:
             try:
                 design = elaborate_obs(D)[4]
                 cases.append({"k": "names", "design": D, "frs": naming_io(design)})
-            except Exception as e:      # the dom case reports it
-                pass
+            except Exception as e:      # an elaboration failure is answered [-9, ..] by run_impl: a mismatch, never dropped
+                cases.append({"k": "names", "design": D, "frs": None, "err": type(e).__name__})
     # --- build plans
     for _ in range(300 if not thorough else 3000):
         cases.append(gen_plan(r))
-    # --- reset
-    for _ in range(120 if not thorough else 1200):
-        D = gen_sim_design(r)
+    # --- reset / constructor state
+    for i in range(120 if not thorough else 1200):
+        D = gen_sim_design(r, plain_names=(i % 2 == 0))
         S = gen_stim(r, D)
         try:
             sim, _ = run_partial(D, S)
-            cases.append({"k": "reset", "design": D, "stim": S, "pre": snapshot(sim)})
-        except Exception as e:
+            pre = snapshot(sim)
+            cases.append({"k": "reset", "design": D, "stim": S, "pre": pre})
+            touch_all(sim)
+            pre_all = snapshot(sim)
+            cases.append({"k": "fresh", "design": D, "stim": S, "pre": pre_all, "nfresh": len(pre_all["slots"])})
+        except Exception as e:          # answered [-9, ..] by run_impl: a mismatch, never dropped
             cases.append({"k": "reset", "design": D, "stim": S, "pre": None, "err": type(e).__name__})
     _CACHE[key] = cases
     return cases
@@ -817,15 +1083,20 @@ def run_impl(c):
             called, pnames, rports, text, design = elaborate_obs(c["design"])
         except (AssertionError, TypeError) as e:
             return err_code(e)
+        except Exception as e:                       # the model never predicts these: reported as a mismatch
+            return unexpected(e)
         from amaranth.hdl import IOPort
         ionames = {nm for nm, conn, _ in design.ports if isinstance(conn, IOPort)}
         if not ports_consistent(pnames, rports, ionames):
             return [-7] + enc_names([nm for _, nm in rports])     # RTLIL port order is not that of design.ports
         return [1] + enc_names(called) + enc_names(pnames)
     if k == "names":
-        design = elaborate_obs(c["design"])[4]
+        try:
+            design = elaborate_obs(c["design"])[4]
+        except Exception as e:
+            return unexpected(e)
         frs = naming_io(design)
-        if [f["in"] for f in frs] != [f["in"] for f in c["frs"]]:
+        if c["frs"] is None or [f["in"] for f in frs] != [f["in"] for f in c["frs"]]:
             return [0]                               # the ordered inputs are not reproducible
         out = []
         for f in frs:
@@ -834,12 +1105,24 @@ def run_impl(c):
     if k == "plan":
         return run_plan(c)
     if k == "reset":
-        if c["pre"] is None:
-            return [-5]
-        sim, _ = run_partial(c["design"], c["stim"])
-        same = int(snapshot(sim) == c["pre"])
+        try:
+            sim, _ = run_partial(c["design"], c["stim"])
+        except Exception as e:
+            return unexpected(e)
+        same = int(snapshot(sim) == c["pre"] and user_inits_ok(c["design"], sim))
         sim.reset()
         return [same] + enc_snapshot(snapshot(sim))
+    if k == "fresh":
+        try:
+            sim, _ = run_partial(c["design"], c["stim"])
+            touch_all(sim)
+            fresh_sim = make_sim(c["design"], c["stim"], [])[0]
+            touch_all(fresh_sim)
+            new = snapshot(fresh_sim)
+        except Exception as e:
+            return unexpected(e)
+        same = int(snapshot(sim) == c["pre"] and len(new["slots"]) == c["nfresh"])
+        return [same] + enc_snapshot(new, wakers=False)
     return recheck(c)            # replay of a violation reported by extra()
 
 
@@ -852,8 +1135,10 @@ def coq_term(c):
     if k == "dom":
         D = c["design"]
         up = "; ".join(f"({qopt(nm)}, {qn(D['sigs'][i][0])})" for nm, i in D["ports"])
-        return f"k_dom {frag_term(D['top'])} [{up}] {names_lit(io_order(D['top']))}"
+        return f"k_dom {frag_term(D['top'])} [{up}] {kid_term(D['top'])}"
     if k == "names":
+        if c["frs"] is None:
+            return "[1]"                              # generation-time failure: the model predicts a normal answer
         parts = []
         for f in c["frs"]:
             tports, sg, ios, subs = f["in"]
@@ -865,8 +1150,10 @@ def coq_term(c):
         return plan_term(c)
     if k == "reset":
         if c["pre"] is None:
-            return "[-5]"
+            return "[1]"                              # generation-time failure: the model predicts a normal answer
         return f"k_reset {engine_lit(c['pre'])}"
+    if k == "fresh":
+        return f"k_fresh {z(c['nfresh'])} {engine_lit(c['pre'])}"
     raise ValueError(k)
 
 
@@ -891,7 +1178,7 @@ def platform_job(P):
     from amaranth.hdl import Module, Signal, Elaboratable
     from amaranth.build import Resource, Pins, Clock, Attrs
     from amaranth.lib import io as aio
-    from amaranth.vendor import SiliconBluePlatform, LatticePlatform, GowinPlatform
+    from amaranth.vendor import SiliconBluePlatform, LatticePlatform, GowinPlatform, AlteraPlatform
     res = [Resource("clk", 0, Pins("A1", dir="i"), Clock(12e6))]
     for i, (nm, pins, d) in enumerate(P["res"]):
         res.append(Resource(nm, i, Pins(" ".join(pins), dir=d), Attrs(IO_STANDARD="LVCMOS33")))
@@ -900,6 +1187,10 @@ def platform_job(P):
         plat = type("Ice", (SiliconBluePlatform,), dict(device="iCE40HX8K", package="CT256", **common))(toolchain="IceStorm")
     elif P["vendor"] == "ecp5":
         plat = type("Ecp", (LatticePlatform,), dict(device="LFE5U-25F", package="BG381", speed="6", **common))(toolchain="Trellis")
+    elif P["vendor"] == "nexus":
+        plat = type("Nx", (LatticePlatform,), dict(device="LIFCL-40-9BG400C", package="BG400", speed="9", **common))(toolchain="Oxide")
+    elif P["vendor"] == "altera":
+        plat = type("Alt", (AlteraPlatform,), dict(device="5CSEMA4", package="U23", speed="C6", **common))(toolchain="Mistral")
     else:
         plat = type("Gw", (GowinPlatform,), dict(part="GW1N-LV1QN48C6/I5", family="GW1N-1", osc_frequency=None, **common))(toolchain="Apicula")
 
@@ -923,7 +1214,7 @@ def platform_job(P):
             for fn, content in P["files"]:
                 platform.add_file(fn, content)
             return m
-    return plat.build(Top(), do_build=False)
+    return plat.build(Top(), P.get("name", "top"), do_build=False, **dict(P.get("overrides", [])))
 
 
 def plan_fingerprint(plan):
@@ -965,6 +1256,12 @@ def worker_main():
             out["plans"].append(plan_fingerprint(platform_job(P)))
         except Exception as e:
             out["plans"].append({"error": type(e).__name__ + ": " + str(e)[:200]})
+    out["cases"] = []
+    for c in job.get("cases", []):      # the Coq-evaluated kinds, answered under this interpreter's hash seed
+        try:
+            out["cases"].append(sha(json.dumps(run_impl(c))))
+        except Exception as e:
+            out["cases"].append("error:" + type(e).__name__ + ": " + str(e)[:120])
     json.dump(out, sys.stdout)
 
 
@@ -980,7 +1277,10 @@ def gen_platform_job(r):
         k += n
     files = [[fn, "".join(r.choice("ab \n") for _ in range(r.randint(0, 8)))]
              for fn in r.sample(["extra/notes.txt", "z.v", "a.v", "inc/d.vh", "\u00e9.txt"], r.randint(0, 4))]
-    return {"vendor": r.choice(["ice40", "ecp5", "gowin"]), "res": res, "files": files}
+    overrides = r.sample([["synth_opts", "-abc9"], ["verbose", True], ["script_after_read", "# after read"],
+                          ["nextpnr_opts", "--seed 1"], ["script_after_synth", "# after synth"]], r.randint(0, 3))
+    return {"vendor": r.choice(["ice40", "ecp5", "gowin", "nexus", "altera"]), "res": res, "files": files,
+            "overrides": overrides, "name": r.choice(["top", "top", "blinky"])}
 
 
 def run_worker(hashseed, job):
@@ -1045,7 +1345,31 @@ def check_reset_rerun(D, S):
         return "reset-trace", {"fresh": tr0[:20], "after_reset": tr1[:20]}, stats
     if stops1 != stops0:
         return "reset-stops", {"fresh": stops0[:30], "after_reset": stops1[:30]}, stats
+    # a second reset() of the same simulator, now after the complete run, and a third run
+    sim1.reset()
+    del tr1[:]
+    sim1.run_until(Period(ns=limit))
+    if tr1 != tr0:
+        return "reset-trace", {"fresh": tr0[:20], "after_second_reset": tr1[:20]}, stats
     return None, {}, stats
+
+
+class shifted_clock:
+    """time.time / localtime / gmtime report an instant `seconds` later (what zipfile and friends would stamp)"""
+    def __init__(self, seconds):
+        self.seconds = seconds
+
+    def __enter__(self):
+        import time
+        self.saved = (time.time, time.localtime, time.gmtime)
+        t0, lt, gt, d = time.time, time.localtime, time.gmtime, self.seconds
+        time.time = lambda: t0() + d
+        time.localtime = lambda secs=None: lt((t0() if secs is None else secs) + (d if secs is None else 0))
+        time.gmtime = lambda secs=None: gt((t0() if secs is None else secs) + (d if secs is None else 0))
+
+    def __exit__(self, *a):
+        import time
+        time.time, time.localtime, time.gmtime = self.saved
 
 
 def check_plan_repeat(P, refp=None):
@@ -1054,7 +1378,8 @@ def check_plan_repeat(P, refp=None):
     f1, f2 = plan_fingerprint(p1), plan_fingerprint(p2)
     b1, b2 = io.BytesIO(), io.BytesIO()
     p1.archive(b1)
-    p1.archive(b2)
+    with shifted_clock(400 * 86400 + 3723):       # the second archive is written "more than a year later"
+        p1.archive(b2)
     listing = extract_listing(p1)
     planned = sorted((fn, c.encode("utf-8") if isinstance(c, str) else bytes(c)) for fn, c in p1.files.items())
     which = None
@@ -1071,18 +1396,29 @@ def check_plan_repeat(P, refp=None):
 def recheck(c):
     """replay of a violation found by extra(): [0] = the clause holds now, [1] = it still fails"""
     k = c["k"]
+    if k == "hashseed:case":
+        here = sha(json.dumps(run_impl(c["input"])))
+        job = {"designs": [], "sims": [], "plans": [], "cases": [c["input"]]}
+        return [int(any(run_worker(s_, job)["cases"][0] != here for s_ in c["seeds"]))]
     if k.startswith("hashseed:"):
         items = KIND_ITEMS[k.split(":", 1)[1]]
         job = {"designs": [], "sims": [], "plans": []}
         job[items] = [c["input"]]
         a, b_ = (run_worker(s, job)[items][0] for s in c["seeds"])
-        return [int(a != b_)]
+        bad = lambda x: (isinstance(x, dict) and "error" in x) or (isinstance(x, str) and x.startswith("error"))
+        return [int(a != b_ or bad(a))]
     if k == "double-conversion":
         return [int(check_double_conversion(c["input"])[0])]
     if k in ("reset-init", "reset-trace", "reset-stops"):
-        return [int(check_reset_rerun(*c["input"])[0] is not None)]
+        try:
+            return [int(check_reset_rerun(*c["input"])[0] is not None)]
+        except Exception:
+            return [1]
     if k.startswith("plan-repeat"):
-        return [int(check_plan_repeat(c["input"])[0] is not None)]
+        try:
+            return [int(check_plan_repeat(c["input"])[0] is not None)]
+        except Exception:
+            return [1]
     if k == "probe":
         pr = _probe_s5()
         return [int(pr[0] != pr[1])]
@@ -1094,19 +1430,58 @@ def _viol(case, explain, detail):
             "explain": explain + " (replay answer: [0] = reproducible now, [1] = still differs)", "detail": detail}
 
 
+def design_features(D):
+    out = set()
+
+    def walk(n):
+        for c in n.get("ctl", []):
+            out.add(c[0])
+        for c in n.get("lib", []):
+            out.add(c[0])
+        if n.get("xf"):
+            out.add("xf:" + n["xf"][0])
+        if n["mem"]:
+            out.add("memory")
+        if n["inst"]:
+            out.add("instance+params" if n["inst"].get("params") else "instance")
+        if n["io"]:
+            out.add("ioport")
+        if n["doms"]:
+            out.add("local-domain")
+        out.add("anonymous-sub" if any(s_["n"] is None for s_ in n["subs"]) else "leaf/named")
+        for s_ in n["subs"]:
+            walk(s_)
+    walk(D["top"])
+    for ent in D["sigs"]:
+        out.add(["unsigned", "signed", "enum", "attrs"][ent[3] if len(ent) > 3 else 0])
+        if ent[1] > 4:
+            out.add("wide")
+    return sorted(out)
+
+
 def extra(tier, seed, findings):
     from concurrent.futures import ThreadPoolExecutor
     thorough = tier == "thorough"
     r = random.Random(seed * 7919 + 11)
     viol, cov = [], {}
     nd, ns, npl = (40, 20, 9) if not thorough else (400, 120, 45)
-    designs = [gen_design(r, sim=False) for _ in range(nd)]
+    import time
+    t_start = time.time()
+    designs = [gen_design(r, sim=False, plain_names=(i % 2 == 0)) for i in range(nd)]
     sims = []
-    for _ in range(ns):
-        D = gen_sim_design(r)
+    for i in range(ns):
+        D = gen_sim_design(r, plain_names=(i % 2 == 0))
         sims.append([D, gen_stim(r, D)])
     plans = [gen_platform_job(r) for _ in range(npl)]
-    job = {"designs": designs, "sims": sims, "plans": plans}
+    # a sample of the Coq-evaluated cases: their implementation answers (compared with the model under
+    # PYTHONHASHSEED=0 by the main run) must be the same under every other hash seed
+    pool = [c for c in gen_cases(tier, seed) if c["k"] in ("dom", "names", "reset", "fresh", "plan", "ports")
+            and c.get("pre", 1) is not None and c.get("frs", 1) is not None]
+    sample = r.sample(pool, min(len(pool), 60 if not thorough else 400))
+    job = {"designs": designs, "sims": sims, "plans": plans, "cases": sample}
+    first_plan = platform_job(plans[0])
+    first_archive = io.BytesIO()
+    first_plan.archive(first_archive)
     seeds = list(FIXED_HASH_SEEDS)
     while len(seeds) < len(FIXED_HASH_SEEDS) + (THOROUGH_SEEDS if thorough else QUICK_SEEDS):
         s = r.randrange(1, 2 ** 32 - 1)
@@ -1126,12 +1501,34 @@ def extra(tier, seed, findings):
                         viol.append(_viol({"k": "hashseed:" + kind, "input": job[items][i], "seeds": [seeds[0], s]},
                                           f"{kind} differs between PYTHONHASHSEED={seeds[0]} and {s}",
                                           {str(seeds[0]): a, str(s): b_}))
+    # the Coq-evaluated kinds under every seed, against the answer of this interpreter
+    here = [sha(json.dumps(run_impl(c))) for c in sample]
+    case_diffs = 0
+    for s, res in zip(seeds, results):
+        for c, a, b_ in zip(sample, here, res["cases"]):
+            if a != b_:
+                case_diffs += 1
+                if case_diffs <= 3:
+                    viol.append(_viol({"k": "hashseed:case", "input": c, "seeds": [s]},
+                                      f"the implementation's answer to a {c['k']} case under PYTHONHASHSEED={s} differs from "
+                                      f"the one compared with the model", {"here": a, "there": b_}))
+    # an exception in the separate interpreter is a failure of the clause, not a statistic
+    errors = 0
+    for kind, items in KIND_ITEMS.items():
+        for i, a in enumerate(ref[items]):
+            msg = a.get("error") if isinstance(a, dict) else (a if isinstance(a, str) and a.startswith("error") else None)
+            if msg is not None:
+                errors += 1
+                if errors <= 3:
+                    viol.append(_viol({"k": "hashseed:" + kind, "input": job[items][i], "seeds": [seeds[0], seeds[0]]},
+                                      f"{kind}: the generated input raises {msg}", {"error": msg}))
     cov["hashseed_runs"] = {
         "seeds": seeds, "designs": nd, "simulations": ns, "platform_plans": npl, "differences": diffs,
-        "designs_elaboration_errors": sum(1 for d in ref["designs"] if "error" in d),
-        "created_domains_histogram": dict(collections.Counter(len(d.get("created", [])) for d in ref["designs"])),
-        "plan_errors": [p_["error"] for p_ in ref["plans"] if "error" in p_][:3],
-        "sim_errors": [x for x in ref["sims"] if x.startswith("error")][:3]}
+        "coq_kind_cases_rerun_under_every_seed": dict(collections.Counter(c["k"] for c in sample)),
+        "coq_kind_case_differences": case_diffs, "errors": errors,
+        "designs_with_dollar_names": sum(1 for i in range(nd) if i % 2),
+        "constructs": dict(collections.Counter(x for D in designs for x in design_features(D))),
+        "created_domains_histogram": dict(collections.Counter(len(d.get("created", [])) for d in ref["designs"]))}
     # ---- in-process: double conversion, equal to the result of the separate interpreter
     n_same = 0
     for D, refd in zip(designs, ref["designs"]):
@@ -1152,6 +1549,8 @@ def extra(tier, seed, findings):
             which, detail, stats = check_reset_rerun(D, S)
         except Exception as e:
             st["sim_errors:" + type(e).__name__] += 1
+            viol.append(_viol({"k": "reset-trace", "input": [D, S]},
+                              f"run / reset / rerun raises {type(e).__name__}: {str(e)[:200]}", {}))
             continue
         st["reruns"] += 1
         st["active_triggers_at_reset"] += stats.get("active", 0)
@@ -1178,6 +1577,8 @@ def extra(tier, seed, findings):
             which, detail, nfiles = check_plan_repeat(P, refp)
         except Exception as e:
             pst["build_errors:" + type(e).__name__] += 1
+            viol.append(_viol({"k": "plan-repeat:error", "input": P},
+                              f"Platform.build(do_build=False) raises {type(e).__name__}: {str(e)[:200]}", {}))
             continue
         pst["plans"] += 1
         pst["files"] += nfiles
@@ -1186,6 +1587,16 @@ def extra(tier, seed, findings):
             viol.append(_viol({"k": "plan-repeat:" + which, "input": P},
                               "Platform.build(do_build=False) twice / other interpreter / archive twice / extract: "
                               + which + " differ", detail))
+    # the same plan archived again at least 2 s of real time after the first archive
+    wait = 2.2 - (time.time() - t_start)
+    if wait > 0:
+        time.sleep(wait)
+    again = io.BytesIO()
+    first_plan.archive(again)
+    pst["archive_again_after_s"] = round(time.time() - t_start, 1)
+    if again.getvalue() != first_archive.getvalue():
+        viol.append(_viol({"k": "plan-repeat:archive", "input": plans[0]},
+                          "archive() of the same plan written >= 2 s later differs byte-wise", {}))
     cov["platform_plans"] = dict(pst)
     return viol, cov
 
